@@ -29,7 +29,9 @@ for d in sorted(glob.glob(root + '/C*-[A-Z]')):
     if id in det:
         rc, keys = det[id]
         checks = open(d + '/checks').read().split() if os.path.exists(d + '/checks') else [meta['property']]
-        meta['detected_by'] = {'command': ' ; '.join('./check %s quick' % p for p in checks) + ' (VERIF_SEED=1), change applied with git -C /repo apply, undone with git -C /repo checkout -- .',
+        meta['detected_by'] = {'command': ' ; '.join('./check %s quick' % p for p in checks) + ' (VERIF_SEED=1), change applied with git apply to /repo (or, in a parallel sweep, to a scratch worktree of /repo - tools/seed_lanes.sh), undone with git checkout -- .',
                                'exit_code': rc, 'violation_keys': keys}
+    elif 'detected_by' in old:
+        meta['detected_by'] = old['detected_by']
     json.dump(meta, open(d + '/meta.json', 'w'), indent=1)
     print(id, 'ok', len(needs))
